@@ -24,6 +24,10 @@ thread_local! {
     static MISMATCHES: Cell<u64> = const { Cell::new(0) };
     static LAST_MISMATCH: Cell<(u64, u64, u64, u64)> = const { Cell::new((0, 0, 0, 0)) };
     static ALLOCS: Cell<u64> = const { Cell::new(0) };
+    static LIVE_BLOCKS: [Cell<i64>; MAX_DOMAINS] = const { [const { Cell::new(0) }; MAX_DOMAINS] };
+    /// zero-size requests made inside an endpoint's domain (GlobalAlloc::alloc requires a
+    /// non-zero size; Rust's own collections never ask for one)
+    static ZERO_SIZE: Cell<u64> = const { Cell::new(0) };
 }
 
 pub struct Monitor;
@@ -35,6 +39,9 @@ fn prefix(align: usize) -> usize {
 
 unsafe impl GlobalAlloc for Monitor {
     unsafe fn alloc(&self, layout: Layout) -> *mut u8 {
+        if layout.size() == 0 && DOMAIN.try_with(|d| d.get()).unwrap_or(0) != 0 {
+            let _ = ZERO_SIZE.try_with(|z| z.set(z.get() + 1));
+        }
         let pre = prefix(layout.align());
         let total = match layout.size().checked_add(pre) {
             Some(t) => t,
@@ -64,6 +71,7 @@ unsafe impl GlobalAlloc for Monitor {
             });
         });
         let _ = ALLOCS.try_with(|a| a.set(a.get() + 1));
+        let _ = LIVE_BLOCKS.try_with(|l| l[domain].set(l[domain].get() + 1));
         user
     }
 
@@ -80,6 +88,10 @@ unsafe impl GlobalAlloc for Monitor {
             let c = &l[domain.min(MAX_DOMAINS - 1)];
             c.set(c.get() - size as i64);
         });
+        let _ = LIVE_BLOCKS.try_with(|l| {
+            let c = &l[domain.min(MAX_DOMAINS - 1)];
+            c.set(c.get() - 1);
+        });
         let pre = prefix(align);
         let inner = Layout::from_size_align_unchecked(size + pre, pre);
         System.dealloc(ptr.sub(pre), inner);
@@ -94,6 +106,20 @@ pub fn set_domain(domain: usize) -> usize {
 /// Live requested bytes allocated by `domain` on this thread (may be freed by anyone).
 pub fn live(domain: usize) -> i64 {
     LIVE.with(|l| l[domain.min(MAX_DOMAINS - 1)].get())
+}
+
+/// Live blocks allocated by `domain` on this thread.
+pub fn live_blocks(domain: usize) -> i64 {
+    LIVE_BLOCKS.with(|l| l[domain.min(MAX_DOMAINS - 1)].get())
+}
+
+/// Zero-size allocation requests made inside endpoint domains on this thread since the last reset.
+pub fn zero_size_requests() -> u64 {
+    ZERO_SIZE.with(|z| z.get())
+}
+
+pub fn reset_zero_size_requests() {
+    ZERO_SIZE.with(|z| z.set(0));
 }
 
 pub fn peak(domain: usize) -> i64 {
